@@ -89,6 +89,204 @@ class Result(object):
         self.incomplete += o.incomplete
 
 
+# ---------------------------------------------------------------------------
+# retained results: a value returned by a library call belongs to the caller.  A check lists the computational
+# entry points of its property in RETAIN = [("hydrodiy.stat.metrics", "binary"), ("hydrodiy.gis.grid",
+# "Grid.neighbours"), ...]; they are wrapped in every worker.  After each wrapped call the result object is kept
+# together with a private deep copy; before the next wrapped call returns, every kept object is compared with its
+# copy.  A kept result that changed although the caller did nothing but call the library again (a function
+# handing out a shared work buffer, a cached dictionary filled in place) is a violation of the property the
+# result belongs to: the value the caller holds is no longer the value the property defines for its arguments.
+# Results that share memory with an argument (output buffers, views of the caller's data) and getters are not
+# retained.
+
+class Retainer(object):
+    def __init__(self):
+        self.kept = {}          # function name -> (object, snapshot, description of the call)
+        self.found = []         # (key, msg)
+        self.calls = 0
+        self.skipped = 0
+        self.active = True
+
+    @staticmethod
+    def snap(x, depth=0):
+        """value of x as nested tuples / bytes (None = nothing that a later call could change)"""
+        import numpy as np
+        if isinstance(x, np.ndarray):
+            if x.dtype.kind == "O":
+                try:
+                    return ("O", x.shape, pickle.dumps(x.tolist(), protocol=4))
+                except Exception:
+                    return None
+            return (x.shape, x.dtype.str, x.tobytes())
+        if x is None or isinstance(x, (bool, int, float, complex, str, bytes, np.generic)):
+            return ("s", repr(x))
+        if depth > 4:
+            return None
+        if isinstance(x, (list, tuple)):
+            return (type(x).__name__,) + tuple(Retainer.snap(y, depth + 1) for y in x)
+        if isinstance(x, dict):
+            try:
+                return ("dict",) + tuple((repr(k), Retainer.snap(v, depth + 1)) for k, v in x.items())
+            except Exception:
+                return None
+        mod = type(x).__module__ or ""
+        if mod.startswith("pandas"):
+            try:
+                out = [type(x).__name__, Retainer.snap(np.asarray(x.values), depth + 1)]
+                if hasattr(x, "index"):
+                    out.append(Retainer.snap(np.asarray(x.index.values), depth + 1))
+                if hasattr(x, "columns"):
+                    out.append(Retainer.snap(np.asarray(x.columns.values), depth + 1))
+                return tuple(out)
+            except Exception:
+                return None
+        if mod.startswith("hydrodiy") and hasattr(x, "__dict__"):
+            return (type(x).__name__,) + tuple((k, Retainer.snap(v, depth + 1)) for k, v in vars(x).items())
+        return None
+
+    @staticmethod
+    def _mutable(x):
+        import numpy as np
+        if isinstance(x, np.ndarray):
+            return x.size > 0
+        if isinstance(x, (dict, list)):
+            return len(x) > 0
+        if isinstance(x, tuple):
+            return any(Retainer._mutable(y) for y in x)
+        mod = type(x).__module__ or ""
+        return mod.startswith(("pandas", "hydrodiy"))
+
+    @staticmethod
+    def _arrays(x, depth=0):
+        import numpy as np
+        if isinstance(x, np.ndarray):
+            yield x
+        elif isinstance(x, (str, bytes, int, float, bool)) or x is None:
+            return
+        elif isinstance(x, (list, tuple)):
+            if depth < 3:
+                for y in x[:50]:
+                    for a in Retainer._arrays(y, depth + 1):
+                        yield a
+        elif isinstance(x, dict):
+            if depth < 3:
+                for y in list(x.values())[:50]:
+                    for a in Retainer._arrays(y, depth + 1):
+                        yield a
+        elif hasattr(x, "__dict__") and (type(x).__module__ or "").startswith("hydrodiy"):
+            if depth < 3:
+                for y in list(vars(x).values())[:50]:
+                    for a in Retainer._arrays(y, depth + 1):
+                        yield a
+        else:
+            v = getattr(x, "values", None)
+            if isinstance(v, np.ndarray):
+                yield v
+            ix = getattr(x, "index", None)
+            iv = getattr(ix, "values", None)
+            if isinstance(iv, np.ndarray):
+                yield iv
+
+    def verify(self, during):
+        for name, (obj, sn, (args, kwargs)) in list(self.kept.items()):
+            if Retainer.snap(obj) != sn:
+                desc = "%s(%s)" % (name, ", ".join([_short(x, 60) for x in args[:4]] +
+                                                   ["%s=%s" % (k, _short(v, 40)) for k, v in list(kwargs.items())[:4]]))
+                self.found.append(("result-overwritten:%s:by:%s" % (name, during),
+                                   "the value returned earlier by %s changed while %s was called: the caller still holds "
+                                   "the result of %s, which now reads %s" % (name, during, desc, _short(obj))))
+                del self.kept[name]
+
+    def after_call(self, name, args, kwargs, res):
+        import numpy as np
+        self.calls += 1
+        if self.kept:
+            self.verify(name)
+        if not Retainer._mutable(res):
+            return
+        argarrays = [a for x in list(args) + list(kwargs.values()) for a in Retainer._arrays(x)]
+        if argarrays:
+            for r in Retainer._arrays(res):
+                for a in argarrays:
+                    if np.may_share_memory(r, a):
+                        # output buffer or view of the caller's data: the caller may change it legitimately
+                        self.skipped += 1
+                        self.kept.pop(name, None)
+                        return
+        sn = Retainer.snap(res)
+        if sn is None:
+            self.skipped += 1
+            return
+        self.kept[name] = (res, sn, (args, kwargs))
+
+    def wrap(self, modname, attr):
+        import importlib, functools
+        owner = importlib.import_module(modname)
+        parts = attr.split(".")
+        for p_ in parts[:-1]:
+            owner = getattr(owner, p_)
+        try:
+            orig = owner.__dict__[parts[-1]] if isinstance(owner, type) else getattr(owner, parts[-1])
+        except (KeyError, AttributeError):
+            raise RuntimeError("RETAIN names %s.%s, which does not exist in the working tree" % (modname, attr))
+        if getattr(orig, "_verif_retained", False):
+            return
+        name = "%s.%s" % (modname.split(".")[-1], attr)
+        kind = None
+        fun = orig
+        if isinstance(orig, staticmethod):
+            kind, fun = staticmethod, orig.__func__
+        elif isinstance(orig, classmethod):
+            kind, fun = classmethod, orig.__func__
+        ret = self
+
+        @functools.wraps(fun)
+        def wrapper(*a, **k):
+            res = fun(*a, **k)
+            if ret.active:
+                ret.active = False
+                try:
+                    ret.after_call(name, a, k, res)
+                finally:
+                    ret.active = True
+            return res
+        wrapper._verif_retained = True
+        setattr(owner, parts[-1], kind(wrapper) if kind else wrapper)
+
+    def flush(self, result):
+        for key, msg in self.found:
+            result.violation(key, {"retained": True, "unit": getattr(result, "current_unit", None)}, msg)
+        self.found = []
+        if self.calls:
+            result.count("retained-results.calls-watched", self.calls)
+            if self.skipped:
+                result.count("retained-results.not-kept(shares memory with an argument / opaque)", self.skipped)
+        self.calls = self.skipped = 0
+        self.kept = {}
+
+
+def _short(x, n=200):
+    try:
+        import numpy as np
+        with np.printoptions(threshold=12, edgeitems=4, precision=6):
+            t = repr(x)
+    except Exception:
+        t = "<%s>" % type(x).__name__
+    t = " ".join(t.split())
+    return t if len(t) <= n else t[:n] + "..."
+
+
+RETAINER = Retainer()
+
+
+def install_retainer(mod):
+    if os.environ.get("VERIF_NO_RETAIN") == "1":      # debugging aid only
+        return
+    for modname, attr in getattr(mod, "RETAIN", []):
+        RETAINER.wrap(modname, attr)
+
+
 def _silence_stdout():
     """C kernels (accumulate, slope) print to C stdout: point fd 1 to /dev/null
     in workers; the parent prints results."""
@@ -113,15 +311,19 @@ def _init_worker(modname):
     np.seterr(all="ignore")
     import warnings
     warnings.simplefilter("ignore")
+    install_retainer(_MOD)
 
 
 def _run_unit(unit):
     r = Result()
     r.current_unit = unit
+    RETAINER.flush(Result())        # nothing kept from before the unit
     try:
         _MOD.run_unit(unit, r)
+        RETAINER.verify("(end of unit)")
     except BaseException:
         r.incomplete.append("unit %r raised: %s" % (unit, traceback.format_exc()[-3000:]))
+    RETAINER.flush(r)
     return r
 
 
@@ -219,6 +421,7 @@ def _init_worker_inproc(mod):
     np.seterr(all="ignore")
     import warnings
     warnings.simplefilter("ignore")
+    install_retainer(mod)
 
 
 # ---------------------------------------------------------------------------
@@ -263,9 +466,11 @@ def _supervised_child(modname, unit, skip, timeout, wfd, outpath, errpath):
     r.sup = Supervisor(wfd, skip, timeout)
     try:
         _MOD.run_unit(unit, r)
+        RETAINER.verify("(end of unit)")
     except BaseException:
         r.incomplete.append("unit %r raised: %s" % (unit, traceback.format_exc()[-3000:]))
     signal.setitimer(signal.ITIMER_PROF, 0)
+    RETAINER.flush(r)
     r.sup = None
     with open(outpath, "wb") as f:
         pickle.dump(r, f)
